@@ -209,12 +209,13 @@ def build_droplet(d):
     import droplets
 
     cls = getattr(droplets, d["cls"]) if hasattr(droplets, d["cls"]) else getattr(droplets.droplets, d["cls"])
-    pos = np.array(d["position"], float)
+    pos, rad = gen.as_given(d["position"], d["radius"], d)
     if d["cls"] == "SphericalDroplet":
-        return cls(pos, d["radius"])
+        return cls(pos, rad)
     if "amplitudes" in d:
-        return cls(pos, d["radius"], d.get("interface_width"), np.array(d["amplitudes"], float))
-    return cls(pos, d["radius"], d.get("interface_width"))
+        amps = np.array(d["amplitudes"], float) if len(d["amplitudes"]) % 2 else [float(a) for a in d["amplitudes"]]
+        return cls(pos, rad, d.get("interface_width"), amps)
+    return cls(pos, rad, d.get("interface_width"))
 
 
 def build_time_course(spec):
